@@ -87,6 +87,17 @@ def run(prog: Program) -> Results:
                     f"{m.func}: `{m.text[:90]}` writes {m.tcls or 'an object'}.{m.fld or ''} of an object owned by the tree being rendered "
                     f"(origins {sorted(m.origins)}; reached from {k}): repeated rebuilds would differ / the tree is modified",
                     via=m.via)
+        shared = [m for m in s.mut_sites if any(o.startswith("G:cache:") for o in m.origins)]
+        for m in shared:
+            org = sorted(o[len("G:cache:"):] for o in m.origins if o.startswith("G:cache:"))
+            key = (m.func, "writes a memoised object", ",".join(org))
+            if key in seen:
+                continue
+            seen.add(key)
+            r1.ob(False, {"root": k, "memoised_object_write": m.text[:70]})
+            res.add("R-C15-1", key, prog.funcs[m.func].loc(m.node),
+                    f"{m.func}: `{m.text[:90]}` modifies an object returned by memoised {org}: the memo hands the same object to every "
+                    f"later caller (any document, any thread), so one rebuild changes the output of the next")
         owner_sites = [m for m in s.mut_sites if m.kind == "registry" and m.fld == "owner" and m.via == "model_copy" and m.func == k]
         for m in owner_sites:
             key = (m.func, "copy retargets scope.owner")
